@@ -784,3 +784,220 @@ class _SubstNames(ast.NodeTransformer):
         if k in self.env:
             return copy.deepcopy(self.env[k])
         return self.generic_visit(n)
+
+
+# ------------------------------------------------------------------------------------------------- specialised arms of an operator
+SINGLE_ATTRS = ('S', 'A', '_A', 'vec', 'R')
+
+
+def _swap_variants(e):
+    """copies of e with the operands of exactly one non-commutative operation exchanged (@, or a two-argument product helper)"""
+    out = []
+    nodes = [n for n in ast.walk(e) if (isinstance(n, ast.BinOp) and isinstance(n.op, ast.MatMult)) or
+             (isinstance(n, ast.Call) and getattr(n.func, 'id', getattr(n.func, 'attr', None)) in ('qqmul', 'matmul', 'dot', 'cross') and len(n.args) >= 2)]
+    for i in range(len(nodes)):
+        c = copy.deepcopy(e)
+        m = [n for n in ast.walk(c) if (isinstance(n, ast.BinOp) and isinstance(n.op, ast.MatMult)) or
+             (isinstance(n, ast.Call) and getattr(n.func, 'id', getattr(n.func, 'attr', None)) in ('qqmul', 'matmul', 'dot', 'cross') and len(n.args) >= 2)][i]
+        if isinstance(m, ast.BinOp):
+            m.left, m.right = m.right, m.left
+        else:
+            m.args[0], m.args[1] = m.args[1], m.args[0]
+        out.append(c)
+    return out
+
+
+class _Sub(ast.NodeTransformer):
+    def __init__(self, env):
+        self.env = env
+
+    def visit_Name(self, n):
+        if isinstance(n.ctx, ast.Load) and n.id in self.env:
+            return copy.deepcopy(self.env[n.id])
+        return n
+
+
+def check_operator_fastpaths(run, rule='R8f'):
+    """An operator method that hands its operands to the broadcasting helper -- C(left.binop(right, lambda x, y: F(x, y))) -- defines
+    element i of the result as F(left[i], right[i]) (a single operand repeated).  An arm of the same method specialised for
+    particular lengths (a fast path: C([E(x) for x in left.data]) under len(right) == 1 ...) must compute the same element:
+    E(x) = F(x, <the single right value>) with every local put in place.  An arm that differs from F by the order of the operands
+    of one non-commutative operation is a violation; any other difference is an unrecognised form."""
+    from ..cfg import pure_locals, _subst_pure
+    prog = run.prog
+    n = 0
+    for f in operator_methods(prog):
+        if len(f.params) < 2:
+            continue
+        fi = FuncInfo.of(f)
+        me, other = f.params[0], f.params[1]
+        env = pure_locals(f.node)
+        generic = []      # (kind-guard text, lambda)
+        for c in own_walk(f.node):
+            if isinstance(c, ast.Call) and isinstance(c.func, ast.Attribute) and c.func.attr in ('binop', '_op2') and len(c.args) >= 2 and \
+                    isinstance(c.func.value, ast.Name) and c.func.value.id == me and isinstance(c.args[1], ast.Lambda) and len(c.args[1].args.args) == 2 \
+                    and isinstance(c.args[0], ast.Name) and c.args[0].id == other:
+                generic.append(c)
+        if not generic:
+            continue
+        cfg = CFG(f.node)
+        facts = must_facts(cfg)
+        for r in own_walk(f.node):
+            if not (isinstance(r, ast.Return) and r.value is not None):
+                continue
+            v = _subst_pure(r.value, env)
+            comps = [x for x in ast.walk(v) if isinstance(x, ast.ListComp) and len(x.generators) == 1 and not x.generators[0].ifs
+                     and isinstance(x.generators[0].target, ast.Name)]
+            if len(comps) != 1 or any(isinstance(x, ast.Call) and isinstance(x.func, ast.Attribute) and x.func.attr in ('binop', '_op2') for x in ast.walk(v)):
+                continue
+            lc = comps[0]
+            it = lc.generators[0].iter
+            who = None
+            base_ = it.value if isinstance(it, ast.Attribute) and it.attr in ('data', 'A', '_A') else it
+            if isinstance(base_, ast.Name) and base_.id in (me, other):
+                who = base_.id
+            if who is None:
+                continue
+            node = cfg.node_of(r)
+            fs = facts.get(node.id, frozenset()) if node is not None else frozenset()
+            # the arm must be one for the same operand kind as a generic arm: pick the generic call whose isinstance facts also hold here
+            tests_here = {ast.unparse(fc[2].ast) for fc in fs if fc[1] and 'isinstance' in ast.unparse(fc[2].ast)}
+            cand = []
+            for g in generic:
+                gn = None
+                for n_ in cfg.nodes:
+                    if any(y is g for h in header_expr(n_) if h is not None for y in ast.walk(h)):
+                        gn = n_
+                        break
+                gt = {ast.unparse(fc[2].ast) for fc in (facts.get(gn.id, frozenset()) if gn is not None else ()) if fc[1] and 'isinstance' in ast.unparse(fc[2].ast)}
+                if gt and gt <= tests_here:
+                    cand.append(g)
+            if len(cand) != 1:
+                continue
+            g = cand[0]
+            lam = g.args[1]
+            px, py = lam.args.args[0].arg, lam.args.args[1].arg
+            xvar = lc.generators[0].target.id
+            single = who_other = other if who == me else me
+            # the single value of the operand that is not iterated: any of its one-value spellings, all mapped to one token
+            tok = ast.Name(id='__single__', ctx=ast.Load())
+
+            class _One(ast.NodeTransformer):
+                def visit_Attribute(self, a):
+                    self.generic_visit(a)
+                    if isinstance(a.value, ast.Name) and a.value.id == single and a.attr in SINGLE_ATTRS:
+                        return copy.deepcopy(tok)
+                    return a
+
+                def visit_Subscript(self, a):
+                    self.generic_visit(a)
+                    if isinstance(a.value, ast.Attribute) and isinstance(a.value.value, ast.Name) and a.value.value.id == single and \
+                            a.value.attr == 'data' and isinstance(a.slice, ast.Constant) and a.slice.value == 0:
+                        return copy.deepcopy(tok)
+                    return a
+            elt = _One().visit(copy.deepcopy(lc.elt))
+            elt = _Sub({xvar: ast.Name(id='__elem__', ctx=ast.Load())}).visit(elt)
+            if who == me:
+                want = _Sub({px: ast.Name(id='__elem__', ctx=ast.Load()), py: tok}).visit(copy.deepcopy(lam.body))
+            else:
+                want = _Sub({px: tok, py: ast.Name(id='__elem__', ctx=ast.Load())}).visit(copy.deepcopy(lam.body))
+            ge = ast.unparse(canon(fi, elt, inline=False))
+            we = ast.unparse(canon(fi, want, inline=False))
+            n += 1
+            construct = 'specialised arm ' + src(r.value, 60)
+            if ge == we:
+                run.holds(rule, f.key, construct, 'element = the broadcasting helper\'s operation applied to (element, single value): ' + we[:80], f=f, node=r)
+            elif any(ast.unparse(canon(fi, sv, inline=False)) == ge for sv in _swap_variants(want)):
+                run.violation(rule, f.key, construct, 'the arm computes %s for each element, but the general arm of the same operator defines the element as %s: '
+                              'the operands of a non-commutative product are exchanged, so for several values on the %s the result is not the '
+                              'element-by-element result' % (ge.replace('__elem__', 'x[i]').replace('__single__', 'y'),
+                                                             we.replace('__elem__', 'x[i]').replace('__single__', 'y'),
+                                                             'left' if who == me else 'right'), f=f, node=r)
+            else:
+                run.error('%s: %s: specialised arm %s is not the element operation of the general arm (%s) in a recognised spelling' %
+                          (rule, f.key, ge[:80], we[:80]))
+    return n
+
+
+# ------------------------------------------------------------------------------------- a list-valued accessor used as a truth value
+def _list_valued_properties(prog):
+    """properties (and zero-argument methods) of the classes that return a list built over the receiver's values when it holds
+    several: [g(x) for x in self] / self.data / self.A"""
+    out = {}
+    for f in prog.analysed_functions():
+        if f.cls is None or f.selfname is None or f.module.short.startswith(('base/', 'stdlib/')):
+            continue
+        if len(f.params) != 1:
+            continue
+        for r in own_walk(f.node):
+            if isinstance(r, ast.Return) and isinstance(r.value, ast.ListComp):
+                it = r.value.generators[0].iter
+                b = it.value if isinstance(it, ast.Attribute) and it.attr in ('data', 'A', '_A') else it
+                if isinstance(b, ast.Name) and b.id == f.selfname:
+                    out[f.key] = f
+    return out
+
+
+def check_list_truth(run, funcs, rule='R8t'):
+    """An accessor that answers for one value with a bool and for several values with a LIST of bools (isprismatic, isunit ...)
+    has, for a receiver holding several values, a truth value that says nothing about the elements: a non-empty list is true.
+    Used as a condition that selects what is computed or returned, it must be reached only where len(self) == 1 is established.
+    (A condition that only guards a diagnostic print / warning does not affect any value and is left alone.)"""
+    prog = run.prog
+    lv = _list_valued_properties(prog)
+    n = 0
+    for f in funcs:
+        if f.cls is None or f.selfname is None:
+            continue
+        fi = FuncInfo.of(f)
+        selfs = fi.self_names()
+        hits = []
+        parents = {}
+        for x in own_walk(f.node):
+            for ch in ast.iter_child_nodes(x):
+                parents[id(ch)] = x
+        for x in own_walk(f.node):
+            if not (isinstance(x, ast.Attribute) and isinstance(x.value, ast.Name) and x.value.id in selfs and isinstance(x.ctx, ast.Load)):
+                continue
+            k, mem = prog.lookup_member(f.cls, x.attr)
+            if not (isinstance(mem, Function) and mem.key in lv and mem.kind == 'property'):
+                continue
+            # is x used as a truth value?  climb through not / and / or to the test of an if / while / conditional expression / assert
+            c, p = x, parents.get(id(x))
+            while isinstance(p, (ast.BoolOp, ast.UnaryOp)) and (isinstance(p, ast.BoolOp) or isinstance(p.op, ast.Not)):
+                c, p = p, parents.get(id(p))
+            if isinstance(p, (ast.If, ast.While, ast.IfExp, ast.Assert)) and p.test is c:
+                hits.append((x, p, mem))
+        if not hits:
+            continue
+        cfg = CFG(f.node)
+        facts = must_facts(cfg)
+        for (x, p, mem) in hits:
+            n += 1
+            construct = 'truth value of %s' % src(x, 30)
+            st = p
+            while st is not None and cfg.node_of(st) is None:
+                st = parents.get(id(st))
+            node = cfg.node_of(st) if st is not None else None
+            fs = facts.get(node.id, frozenset()) if node is not None else frozenset()
+            # facts established by earlier operands of the same `and` chain count too: len(self) == 1 and self.isprismatic
+            same_test = False
+            if isinstance(p, (ast.If, ast.While, ast.IfExp, ast.Assert)) and isinstance(p.test, ast.BoolOp) and isinstance(p.test.op, ast.And):
+                for v in p.test.values:
+                    if v is x or any(y is x for y in ast.walk(v)):
+                        break
+                    if any(matches(pt % s_, canon(fi, v, inline=False)) is not None for s_ in selfs for pt in ('len(%s) == 1', 'len(%s.data) == 1')):
+                        same_test = True
+            if len1(fs, selfs, True) or same_test:
+                run.holds(rule, f.key, construct, 'reached only with len(self) == 1: the accessor answers with a single bool', f=f, node=x)
+                continue
+            if isinstance(p, ast.If) and not p.orelse and all(
+                    isinstance(b, ast.Expr) and isinstance(b.value, ast.Call) and
+                    getattr(b.value.func, 'id', getattr(b.value.func, 'attr', None)) in ('print', 'warn', 'warning', 'info', 'debug') for b in p.body):
+                run.holds(rule, f.key, construct, 'guards a diagnostic message only: no value depends on it', f=f, node=x, nontrivial=False)
+                continue
+            run.violation(rule, f.key, construct, '%s.%s is a list (one answer per value) when the receiver holds several values, and a non-empty list is '
+                          'true whatever it contains; the condition %s selects what is returned, and no len(%s) == 1 test dominates it: for a '
+                          'multi-valued receiver the arm is taken regardless of the elements' %
+                          (x.value.id, x.attr, src(p.test, 50), x.value.id), f=f, node=x)
+    return n
